@@ -98,36 +98,42 @@ def expectE (S : Schema) (i : Nat) (f : Field) : String :=
   | .lengthOf t tg => s!"slot(w={t.width},le={le}) … patch after {tg}"
   | .checksum t a => s!"checksum({a},w={t.width},le={le},member#{i})"
 
-def walkE (S : Schema) (pk : String) (all : List Field) : Nat → List Field → List EStep → List Reason
-  | _, [], [] => []
-  | _, [], st :: _ => [{ side := "enc", packet := pk, field := "-", kind := "-", attr := "extra-step", expected := "end", got := estepStr st }]
-  | i, f :: fs, steps =>
+def walkE (S : Schema) (pk : String) (all : List Field) : Option Pending → Nat → List Field → List EStep → List Reason
+  | none, _, [], [] => []
+  | some p, _, [], _ =>
+    [{ side := "enc", packet := pk, field := p.target, kind := "length", attr := "length-plan/target-never-patched", expected := "mark, target, mark, patch", got := "end" }]
+  | none, _, [], st :: _ => [{ side := "enc", packet := pk, field := "-", kind := "-", attr := "extra-step", expected := "end", got := estepStr st }]
+  | pend, i, f :: fs, steps =>
     let mk := fun (attr got : String) => ({ side := "enc", packet := pk, field := f.name, kind := kindName f, attr, expected := expectE S i f, got } : Reason)
-    match f.kind, f.rep with
-    | .lengthOf t target, false =>
-      match fs, steps with
-      | f2 :: fs', .slot w1 le1 pv :: .mark sv :: st2 :: .mark ev :: .patch w2 le2 pv' sv' ev' slice :: rest =>
-        let ok := w1 = t.width && leOk S w1 le1 && w2 = t.width && leOk S w2 le2
-          && pv' = pv && sv' = sv && ev' = ev && sv != ev && pv != sv && pv != ev
-          && f2.name = target && fieldIdx all target = some (i + 1) && !f2.rep && isCallKind f2.kind && sliceOk t.width slice
-        let attr := if w1 ≠ t.width then "slot.width" else if !leOk S w1 le1 then "slot.le"
-          else if w2 ≠ t.width then "patch.width" else if !leOk S w2 le2 then "patch.le"
-          else if !sliceOk t.width slice then "patch.slice"
-          else if f2.name ≠ target || fieldIdx all target ≠ some (i + 1) || f2.rep || !isCallKind f2.kind then "target-not-adjacent" else "patch.vars"
-        (if ok then [] else [mk attr (estepStr (.slot w1 le1 pv) ++ " " ++ estepStr (.patch w2 le2 pv' sv' ev' slice))])
-          ++ (if plainOkE S (i + 1) f2 st2 then [] else
-                [{ side := "enc", packet := pk, field := f2.name, kind := kindName f2, attr := eAttr S (i + 1) f2 st2, expected := expectE S (i + 1) f2, got := estepStr st2 }])
-          ++ walkE S pk all (i + 2) fs' rest
-      | _, st :: rest =>
-        -- not the slot/mark/target/mark/patch pattern: report and resynchronise field by field
-        let target_kind := match fs with | f2 :: _ => if f2.name = target then kindName f2 else "far" | [] => "none"
-        mk ("length-plan/" ++ target_kind) (estepStr st) :: walkE S pk all (i + 1) fs rest
-      | _, [] => [mk "missing-step" "end"]
-    | _, _ =>
-      match steps with
-      | st :: rest =>
-        (if plainOkE S i f st then [] else [mk (eAttr S i f st) (estepStr st)]) ++ walkE S pk all (i + 1) fs rest
-      | [] => [mk "missing-step" "end"]
+    match roleOf pend f, steps with
+    | .len t target, .slot w1 le1 pv :: rest =>
+      (if w1 ≠ t.width then [mk "slot.width" (estepStr (.slot w1 le1 pv))]
+       else if !leOk S w1 le1 then [mk "slot.le" (estepStr (.slot w1 le1 pv))] else [])
+        ++ walkE S pk all (some ⟨pv, t.width, target⟩) (i + 1) fs rest
+    | .len _ target, st :: rest =>
+      -- no slot where the length field stands: report and resynchronise field by field
+      let where_ := match fs with | f2 :: _ => if f2.name = target then kindName f2 else "far" | [] => "none"
+      mk ("length-plan/" ++ where_) (estepStr st) :: walkE S pk all none (i + 1) fs rest
+    | .target p, .mark sv :: st2 :: .mark ev :: .patch w2 le2 pv' sv' ev' slice :: rest =>
+      let ok := w2 = p.w && leOk S w2 le2 && pv' = p.pv && sv' = sv && ev' = ev && sv != ev && p.pv != sv && p.pv != ev
+        && fieldIdx all p.target = some i && !f.rep && isCallKind f.kind && sliceOk p.w slice
+      let attr := if w2 ≠ p.w then "patch.width" else if !leOk S w2 le2 then "patch.le"
+        else if !sliceOk p.w slice then "patch.slice"
+        else if fieldIdx all p.target ≠ some i || f.rep || !isCallKind f.kind then "target-not-adjacent" else "patch.vars"
+      (if ok then [] else
+        [{ side := "enc", packet := pk, field := p.target, kind := "length", attr, expected := s!"patch(w={p.w},le={S.cfg.le}) of the slot at {p.pv}",
+           got := estepStr (.patch w2 le2 pv' sv' ev' slice) }])
+        ++ (if plainOkE S i f st2 then [] else [mk (eAttr S i f st2) (estepStr st2)])
+        ++ walkE S pk all none (i + 1) fs rest
+    | .target p, st :: rest =>
+      -- the target is not wrapped in mark/patch: the length is never written
+      { side := "enc", packet := pk, field := p.target, kind := "length", attr := "length-plan/" ++ kindName f,
+        expected := "mark, target, mark, patch", got := estepStr st }
+        :: (if plainOkE S i f st then [] else [mk (eAttr S i f st) (estepStr st)]) ++ walkE S pk all none (i + 1) fs rest
+    | .plain, st :: rest =>
+      (if plainOkE S i f st then [] else [mk (eAttr S i f st) (estepStr st)]) ++ walkE S pk all pend (i + 1) fs rest
+    | .bad, st :: rest => mk "length-plan/second-length-field" (estepStr st) :: walkE S pk all pend (i + 1) fs rest
+    | _, [] => [mk "missing-step" "end"]
 
 def explainEnc (S : Schema) (P : Prog) : List Reason :=
   (S.packets.map fun p =>
@@ -136,7 +142,7 @@ def explainEnc (S : Schema) (P : Prog) : List Reason :=
     | some st =>
       (if st.members.length = p.fields.length then [] else
         [{ side := "enc", packet := p.name, field := "-", kind := "-", attr := "member-count", expected := toString p.fields.length, got := toString st.members.length }])
-      ++ walkE S p.name p.fields 0 p.fields st.enc).flatten
+      ++ walkE S p.name p.fields none 0 p.fields st.enc).flatten
 
 def dAttr (S : Schema) (P : Prog) (all : List Field) (i : Nat) (f : Field) (st : DStep) : String :=
   if f.rep then
